@@ -247,6 +247,12 @@ def gen_table(rng, delim=None, tame=False, max_cols=6, max_rows=14, allow_void=T
                 else:
                     t = gen_text(rng, delim, tame or for_xml, allow_tab=not for_xml)
                     row.append(t.strip(WS) if for_xml else t)
+        if not any(c.strip(WS) for c in row):
+            # a row whose cells are all blank is a blank line for the reader when the delimiter is a tab (and is
+            # not a data row in any useful sense): keep one non-blank cell per row (hypothesis of
+            # C09_records_render_table: blank (render_line d r) = false)
+            c0 = next(c for c in range(ncols) if kinds[c] != "void")
+            row[c0] = gen_text(rng, delim, tame or for_xml, allow_tab=not for_xml).strip(WS)
         cells.append(row)
     header = None
     if rng.random() < 0.6:
@@ -393,3 +399,38 @@ def xrff_model_lines(hlines, hout, variant="fixed"):
 
 def csv_line(text, delim, hdr, trim, out, flt="N", variant="fixed"):
     return "csv %s %s %d %d %d %d %s" % (variant, hx(text), delim, hdr, 1 if trim else 0, -1 if out is None else out, flt)
+
+
+def shrink_lines(harness, line, still_fails, budget=80):
+    """greedy shrinking of the input text of a csv/prob/xrff case: drop text lines (then halve the remaining ones)
+    while `still_fails(harness output line or None)` holds.  Returns the smaller case line."""
+    w = line.split(" ")
+    text = unhx(w[2])
+
+    def run(txt):
+        l = " ".join(w[:2] + [hx(txt)] + w[3:])
+        out, _ = pc.run_harness_resilient(harness, [l])
+        return l, out[0]
+
+    best = line
+    parts = text.split(b"\n")
+    i = 0
+    while i < len(parts) and budget > 0 and len(parts) > 1:
+        cand = parts[:i] + parts[i + 1:]
+        budget -= 1
+        l, o = run(b"\n".join(cand))
+        if still_fails(o):
+            parts, best = cand, l
+        else:
+            i += 1
+    for i in range(len(parts)):
+        while budget > 0 and len(parts[i]) > 1:
+            cand = list(parts)
+            cand[i] = parts[i][:len(parts[i]) // 2]
+            budget -= 1
+            l, o = run(b"\n".join(cand))
+            if still_fails(o):
+                parts, best = cand, l
+            else:
+                break
+    return best
